@@ -91,7 +91,7 @@ def run(tier):
     rnd = random.Random(seed())
     n = 6000 if tier == "thorough" else 640
     picks = sorted(rnd.sample(range(len(gen)), n))
-    exe = targets.get("h_drv")
+    exe = targets.get("h_drv_asan" if tier == "thorough" else "h_drv")   # thorough: ASan/UBSan build
     cfgs, acc = cvtcases.configs(exe)
     linear_opts = dict(cfgs)["mip-linear"]
     cases = []
